@@ -512,6 +512,22 @@ func (r *runner) run() {
 		r.checkLeaf("MerkleTreeLeafFromRawChain", leaf, err, wantChain, chainOK, ts0)
 	})
 
+	// a second, chain-only derivation of the same entry (ref.EntryForChain knows nothing of the specification);
+	// it is defined where RFC 6962 prescribes the result and the extension list stays non-empty
+	poisonCritical := false
+	for _, e := range cs.T.Exts {
+		if e.ID == "POISON" && e.Crit {
+			poisonCritical = true // RFC 6962 3.1: the poison is critical; EntryForChain recognizes only that
+		}
+	}
+	if chainOK && poisonCritical && len(cs.Chain.TBS.Exts) > 0 && (cs.Clause == "Direct" || cs.Clause == "AkiReplaced" || cs.Clause == "AkiAbsent" || !c.PreEKU) {
+		e2, err := ref.EntryForChain(chainDER, withPI && c.PreEKU)
+		if err != nil || !bytes.Equal(e2.TBS, wantChain.TBS) || !bytes.Equal(e2.IssuerKeyHash, wantChain.IssuerKeyHash) {
+			panic(fmt.Sprintf("harness: the two independent derivations of the entry disagree (%v) for %+v", err, c))
+		}
+		r.rep.Add("cross_checked_with_EntryForChain", 1)
+	}
+
 	// SCTs over the entry an independent log computes for this precertificate
 	var scts []*sctRec
 	if chainOK {
@@ -809,8 +825,16 @@ func TestReplay(t *testing.T) {
 			crep := vh.NewReport("canary", "")
 			w := &world{keys: keys, cache: map[string]*hier{}}
 			r := &runner{w: w, rep: crep, cs: &canaries[i], idx: i}
-			r.run()
-			if len(crep.Violations) == 0 {
+			flagged := false
+			func() {
+				defer func() {
+					if p := recover(); p != nil {
+						flagged = true // the harness' two independent oracles disagree: the corruption was noticed there
+					}
+				}()
+				r.run()
+			}()
+			if len(crep.Violations) == 0 && !flagged {
 				t.Fatalf("canary %d (corrupted expectation) was not flagged: the comparison does not bind", i)
 			}
 		}
